@@ -7,140 +7,56 @@ import SkNet.Lemmas.ModularityLeiden
 
 namespace SkNet.Modularity
 
-/-! ### the pattern of the aggregate contains the image of the pattern -/
+/-- the tracked (coarse) partition `labels ∘ memb` of the first level lies inside its connected components -/
+def TrackedWithin (lv0 : Level) (memb labels : List Nat) : Prop :=
+  ∀ u v, u < lv0.n → v < lv0.n → labOf labels (labOf memb u) = labOf labels (labOf memb v) → PConn lv0.graph u v
 
-theorem rowAdd_has_col (col : Nat) (v : Rat) (r : List (Nat × Rat)) : ∃ e ∈ rowAdd col v r, e.1 = col := by
-  induction r with
-  | nil => exact ⟨(col, v), by simp [rowAdd], rfl⟩
-  | cons e0 r ih =>
-    obtain ⟨c, x⟩ := e0
-    unfold rowAdd
-    split
-    · exact ⟨(col, v), List.mem_cons_self, rfl⟩
-    · split
-      · rename_i _ h2
-        exact ⟨(c, x + v), List.mem_cons_self, h2.symm⟩
-      · obtain ⟨e, he, h⟩ := ih
-        exact ⟨e, List.mem_cons_of_mem _ he, h⟩
-
-theorem rowAdd_keeps (col : Nat) (v : Rat) (r : List (Nat × Rat)) :
-    ∀ e ∈ r, ∃ e' ∈ rowAdd col v r, e'.1 = e.1 := by
-  induction r with
-  | nil => intro e he; exact absurd he List.not_mem_nil
-  | cons e0 r ih =>
-    obtain ⟨c, x⟩ := e0
-    intro e he
-    unfold rowAdd
-    split
-    · exact ⟨e, List.mem_cons_of_mem _ he, rfl⟩
-    · split
-      · rcases List.mem_cons.mp he with rfl | he'
-        · exact ⟨(c, x + v), List.mem_cons_self, rfl⟩
-        · exact ⟨e, List.mem_cons_of_mem _ he', rfl⟩
-      · rcases List.mem_cons.mp he with rfl | he'
-        · exact ⟨(c, x), List.mem_cons_self, rfl⟩
-        · obtain ⟨e', he'', h⟩ := ih e he'
-          exact ⟨e', List.mem_cons_of_mem _ he'', h⟩
-
-theorem aggInner_complete (lab : Nat → Nat) (row acc : List (Nat × Rat)) :
-    (∀ e ∈ acc, ∃ e' ∈ row.foldl (fun acc e => rowAdd (lab e.1) e.2 acc) acc, e'.1 = e.1) ∧
-    (∀ e ∈ row, ∃ e' ∈ row.foldl (fun acc e => rowAdd (lab e.1) e.2 acc) acc, e'.1 = lab e.1) := by
-  induction row generalizing acc with
-  | nil => exact ⟨fun e he => ⟨e, he, rfl⟩, fun e he => absurd he List.not_mem_nil⟩
-  | cons e0 r ih =>
-    obtain ⟨h1, h2⟩ := ih (rowAdd (lab e0.1) e0.2 acc)
-    simp only [List.foldl_cons]
-    refine ⟨?_, ?_⟩
-    · intro e he
-      obtain ⟨e1, he1, h⟩ := rowAdd_keeps (lab e0.1) e0.2 acc e he
-      obtain ⟨e2, he2, h'⟩ := h1 e1 he1
-      exact ⟨e2, he2, h'.trans h⟩
-    · intro e he
-      rcases List.mem_cons.mp he with rfl | he'
-      · obtain ⟨e1, he1, h⟩ := rowAdd_has_col (lab e.1) e.2 acc
-        obtain ⟨e2, he2, h'⟩ := h1 e1 he1
-        exact ⟨e2, he2, h'.trans h⟩
-      · exact h2 e he'
-
-theorem aggOuter_complete (lab : Nat → Nat) (rows : List (List (Nat × Rat))) (a : Nat) (idx : List Nat)
-    (acc : List (Nat × Rat)) :
-    (∀ e ∈ acc, ∃ e' ∈ idx.foldl (fun acc i =>
-        if lab i == a then (rows.getD i []).foldl (fun acc e => rowAdd (lab e.1) e.2 acc) acc else acc) acc,
-      e'.1 = e.1) ∧
-    (∀ i ∈ idx, lab i = a → ∀ e ∈ rows.getD i [], ∃ e' ∈ idx.foldl (fun acc i =>
-        if lab i == a then (rows.getD i []).foldl (fun acc e => rowAdd (lab e.1) e.2 acc) acc else acc) acc,
-      e'.1 = lab e.1) := by
-  induction idx generalizing acc with
-  | nil => exact ⟨fun e he => ⟨e, he, rfl⟩, fun i hi => absurd hi List.not_mem_nil⟩
-  | cons j r ih =>
-    simp only [List.foldl_cons]
-    by_cases hj : lab j = a
-    · have hb : (lab j == a) = true := beq_iff_eq.mpr hj
-      rw [if_pos hb]
-      obtain ⟨h1, h2⟩ := ih ((rows.getD j []).foldl (fun acc e => rowAdd (lab e.1) e.2 acc) acc)
-      obtain ⟨g1, g2⟩ := aggInner_complete lab (rows.getD j []) acc
-      refine ⟨?_, ?_⟩
-      · intro e he
-        obtain ⟨e1, he1, h⟩ := g1 e he
-        obtain ⟨e2, he2, h'⟩ := h1 e1 he1
-        exact ⟨e2, he2, h'.trans h⟩
-      · intro i hi hia e he
-        rcases List.mem_cons.mp hi with rfl | hi'
-        · obtain ⟨e1, he1, h⟩ := g2 e he
-          obtain ⟨e2, he2, h'⟩ := h1 e1 he1
-          exact ⟨e2, he2, h'.trans h⟩
-        · exact h2 i hi' hia e he
-    · have hb : ¬ (lab j == a) = true := fun h => hj (beq_iff_eq.mp h)
-      rw [if_neg hb]
-      obtain ⟨h1, h2⟩ := ih acc
-      refine ⟨h1, ?_⟩
-      intro i hi hia e he
-      rcases List.mem_cons.mp hi with rfl | hi'
-      · exact absurd hia hj
-      · exact h2 i hi' hia e he
-
-/-- a stored entry `(x, y)` of a level gives a stored entry `(labels x, labels y)` of its aggregate -/
-theorem aggregate_pattern_complete (labels : List Nat) (lv : Level) (hlv : LevelOK lv) (hlen : labels.length = lv.n)
-    (x : Nat) (hx : x < lv.n) (e : Nat × Rat) (he : e ∈ lv.graph.row x) :
-    ∃ e' ∈ (aggregate labels lv).graph.row (labOf labels x), e'.1 = labOf labels e.1 := by
-  have ha : labOf labels x < nLabels labels := labOf_lt_nLabels labels x (by rw [hlen]; exact hx)
-  have hrow : (aggregate labels lv).graph.row (labOf labels x) = aggRow labels lv.rows (labOf labels x) := by
-    show (tab (nLabels labels) (aggRow labels lv.rows)).getD (labOf labels x) [] = _
-    rw [tab_getD, if_pos ha]
-  rw [hrow]
-  unfold aggRow
-  exact (aggOuter_complete (labOf labels) lv.rows (labOf labels x) (List.range lv.rows.length) []).2 x
-    (List.mem_range.mpr (by rw [hlv.lenR]; exact hx)) rfl e he
-
-theorem aggregate_plink (labels : List Nat) (lv : Level) (hlv : LevelOK lv) (hlen : labels.length = lv.n)
-    (x y : Nat) (h : PLink lv.graph x y) :
-    PLink (aggregate labels lv).graph (labOf labels x) (labOf labels y) := by
-  obtain ⟨hx, hy⟩ := plink_lt lv hlv h
-  rcases h with ⟨e, he, hey⟩ | ⟨e, he, hex⟩
-  · obtain ⟨e', he', h'⟩ := aggregate_pattern_complete labels lv hlv hlen x hx e he
-    exact Or.inl ⟨e', he', by rw [h', hey]⟩
-  · obtain ⟨e', he', h'⟩ := aggregate_pattern_complete labels lv hlv hlen y hy e he
-    exact Or.inr ⟨e', he', by rw [h', hex]⟩
-
-theorem aggregate_pconn (labels : List Nat) (lv : Level) (hlv : LevelOK lv) (hlen : labels.length = lv.n)
-    (x y : Nat) (h : PConn lv.graph x y) :
-    PConn (aggregate labels lv).graph (labOf labels x) (labOf labels y) := by
+/-- joining clusters of stored neighbours on the current level keeps the tracked partition inside the components of
+    the first level (no assumption on how the stored pattern of the current level arose beyond `CompInv`) -/
+theorem JoinSteps.trackedWithin {lv0 lv : Level} {memb : List Nat} (hinv : CompInv lv0 lv memb)
+    {l l' : List Nat} (h : JoinSteps lv.graph l l') (hlen : l.length = lv.n) (hw : TrackedWithin lv0 memb l) :
+    TrackedWithin lv0 memb l' := by
   induction h with
-  | refl => exact PConn.refl _
-  | step _ hl ih => exact PConn.step ih (aggregate_plink labels lv hlv hlen _ _ hl)
+  | refl => exact hw
+  | @step l1 i e hj hi he ih =>
+    have hlen1 : i < l1.length := by rw [hj.length_eq, hlen]; exact hi
+    obtain ⟨u0, v0, hu0, hv0, hui, hve, hc⟩ := hinv.links i e.1 (Or.inl ⟨e, he, rfl⟩)
+    intro u v hu hv huv
+    rw [labOf_set _ _ _ hlen1] at huv
+    simp only [Function.update_apply] at huv
+    by_cases h1 : labOf memb u = i
+    · by_cases h2 : labOf memb v = i
+      · exact hinv.within u v hu hv (h1.trans h2.symm)
+      · simp only [h1, h2, if_true, if_false] at huv
+        have a1 : PConn lv0.graph u u0 := hinv.within u u0 hu hu0 (h1.trans hui.symm)
+        have a2 : PConn lv0.graph v0 v := ih v0 v hv0 hv (by rw [hve]; exact huv)
+        exact (a1.trans hc).trans a2
+    · by_cases h2 : labOf memb v = i
+      · simp only [h1, h2, if_true, if_false] at huv
+        have a1 : PConn lv0.graph u v0 := ih u v0 hu hv0 (by rw [hve]; exact huv)
+        have a2 : PConn lv0.graph u0 v := hinv.within u0 v hu0 hv (hui.trans h2.symm)
+        exact (a1.trans hc.symm).trans a2
+      · simp only [h1, h2, if_false] at huv
+        exact ih u v hu hv huv
 
 /-! ### the loop -/
 
-theorem leiden_level_comp (lv : Level) (hlv : LevelOK lv) (res tolOpt : Rat) (coreFuel : Nat) (labels : List Nat)
-    (hlen : labels.length = lv.n) (hw : WithinComp lv.graph labels) (labels1 : List Nat) (inc : Rat)
-    (h : leidenOptimize lv res tolOpt coreFuel labels = some (labels1, inc)) :
-    WithinComp lv.graph (uniqueInverse labels1) := by
-  obtain ⟨-, -, h3, h4, -⟩ := optimizeCore_spec lv.graph hlv.graphOK res tolOpt (nLabels labels) coreFuel _
-    (coreInv_labels lv hlv labels hlen) labels1 inc h
+theorem leiden_level_tracked (lv0 lv : Level) (hlv : LevelOK lv) (memb : List Nat) (hinv : CompInv lv0 lv memb)
+    (hmb : ∀ u, u < lv0.n → labOf memb u < lv.n) (res tolOpt : Rat) (labels : List Nat)
+    (hlen : labels.length = lv.n) (hw : TrackedWithin lv0 memb labels) (labels1 : List Nat) (inc : Rat)
+    (h : leidenOptimize lv res tolOpt labels = some (labels1, inc)) :
+    TrackedWithin lv0 memb (uniqueInverse labels1) := by
+  unfold leidenOptimize at h
+  simp only [Option.some.injEq] at h
+  obtain ⟨-, -, h3, h4, -⟩ := optimizeCoreCapped_spec lv.graph hlv.graphOK res tolOpt (nLabels labels) _
+    (coreInv_labels lv hlv labels hlen)
+  rw [h] at h3 h4
+  simp only at h3 h4
   have hlen1 : labels1.length = lv.n := h4
-  have hw1 : WithinComp lv.graph labels1 := h3.withinComp hlv.graphOK.cols hlen hw
+  have hw1 : TrackedWithin lv0 memb labels1 := h3.trackedWithin hinv hlen hw
   intro u v hu hv huv
-  exact hw1 u v hu hv ((uniqueInverse_iff labels1 u v (by rw [hlen1]; exact hu) (by rw [hlen1]; exact hv)).mp huv)
+  exact hw1 u v hu hv ((uniqueInverse_iff labels1 _ _ (by rw [hlen1]; exact hmb u hu)
+    (by rw [hlen1]; exact hmb v hv)).mp huv)
 
 theorem leiden_refine_comp (lv : Level) (hlv : LevelOK lv) (res : Rat) (coreFuel : Nat) (labels2 : List Nat)
     (rands refined rest : List Nat) (h : leidenRefine lv res coreFuel labels2 rands = some (refined, rest)) :
@@ -159,12 +75,12 @@ theorem leiden_refine_comp (lv : Level) (hlv : LevelOK lv) (res : Rat) (coreFuel
   intro u v hu hv huv
   exact hw u v hu hv ((uniqueInverse_iff refined u v (by rw [hl]; exact hu) (by rw [hl]; exact hv)).mp huv)
 
-theorem leidenLoop_comp (res tolOpt tolAgg : Rat) (nAgg : Int) (coreFuel : Nat) (lv0 : Level) :
+theorem leidenLoop_comp (res tolOpt tolAgg : Rat) (nAgg : Int) (lv0 : Level) :
     ∀ (fuel count : Nat) (lv : Level) (labels memb : List Nat) (incs : List Rat) (rands : List (List Nat))
       (out : FitOut),
       LevelOK lv → labels.length = lv.n → memb.length = lv0.n → (∀ u, u < lv0.n → labOf memb u < lv.n) →
-      CompInv lv0 lv memb → WithinComp lv.graph labels →
-      leidenLoop res tolOpt tolAgg nAgg coreFuel fuel count lv labels memb incs rands = some out →
+      CompInv lv0 lv memb → TrackedWithin lv0 memb labels →
+      leidenLoop res tolOpt tolAgg nAgg fuel count lv labels memb incs rands = some out →
       WithinComp lv0.graph out.labels := by
   intro fuel
   induction fuel with
@@ -175,18 +91,20 @@ theorem leidenLoop_comp (res tolOpt tolAgg : Rat) (nAgg : Int) (coreFuel : Nat) 
     split at h
     · cases h
     · rename_i labels1 inc hopt
-      obtain ⟨-, g2, -⟩ := leiden_level lv hlv res tolOpt coreFuel labels hlen labels1 inc hopt
-      have hw2 := leiden_level_comp lv hlv res tolOpt coreFuel labels hlen hw labels1 inc hopt
+      obtain ⟨-, g2, -⟩ := leiden_level lv hlv res tolOpt labels hlen labels1 inc hopt
+      have hw2 := leiden_level_tracked lv0 lv hlv memb hinv hmb res tolOpt labels hlen hw labels1 inc hopt
       split at h
       · cases h
       · rename_i refined rest href
-        have hrinv := leiden_refine lv hlv res coreFuel (uniqueInverse labels1) _ refined rest href
+        have hrinv := leiden_refine lv hlv res 0 (uniqueInverse labels1) _ refined rest href
         have hrlen : (uniqueInverse refined).length = lv.n := hrinv.len
-        have hwr := leiden_refine_comp lv hlv res coreFuel (uniqueInverse labels1) _ refined rest href
+        have hwr := leiden_refine_comp lv hlv res 0 (uniqueInverse labels1) _ refined rest href
         split at h
         · simp only [Option.some.injEq] at h
           subst h
-          exact (compInv_step lv0 lv hlv memb hinv hmlen hmb (uniqueInverse labels1) hw2).within
+          intro u v hu hv huv
+          rw [labOf_map memb _ u (by rw [hmlen]; exact hu), labOf_map memb _ v (by rw [hmlen]; exact hv)] at huv
+          exact hw2 u v hu hv huv
         · have honto : ∀ r, r < nLabels (uniqueInverse refined) → ∃ u, u < lv.n ∧ labOf (uniqueInverse refined) u = r := by
             intro r hr
             obtain ⟨u, hu, hur⟩ := uniqueInverse_onto refined r hr
@@ -194,29 +112,29 @@ theorem leidenLoop_comp (res tolOpt tolAgg : Rat) (nAgg : Int) (coreFuel : Nat) 
             rw [← hrlen, uniqueInverse_length]; exact hu
           have hspec := refinedToLabels_spec lv.n (uniqueInverse labels1) (uniqueInverse refined) g2 hrinv honto
           have hmlen' : (memb.map fun x => (uniqueInverse refined).getD x 0).length = lv0.n := by simp [hmlen]
+          have hcomp : ∀ u, u < lv0.n → labOf (memb.map fun x => (uniqueInverse refined).getD x 0) u
+              = labOf (uniqueInverse refined) (labOf memb u) :=
+            fun u hu => labOf_map memb _ u (by rw [hmlen]; exact hu)
           have hmb' : ∀ u, u < lv0.n → labOf (memb.map fun x => (uniqueInverse refined).getD x 0) u
               < (aggregate (uniqueInverse refined) lv).n := by
             intro u hu
-            rw [labOf_map memb _ u (by rw [hmlen]; exact hu)]
+            rw [hcomp u hu]
             exact labOf_lt_nLabels _ _ (by rw [hrlen]; exact hmb u hu)
           have hinv' := compInv_step lv0 lv hlv memb hinv hmlen hmb (uniqueInverse refined) hwr
-          -- the coarse clusters, seen on the aggregate, still lie inside its components
-          have hw' : WithinComp (aggregate (uniqueInverse refined) lv).graph
+          -- the coarse clusters, carried by the refined clusters, are the same partition of the first level
+          have hw' : TrackedWithin lv0 (memb.map fun x => (uniqueInverse refined).getD x 0)
               (refinedToLabels (uniqueInverse labels1) (uniqueInverse refined)) := by
-            intro a b ha hb hab
-            obtain ⟨x, hx, hxa⟩ := honto a ha
-            obtain ⟨y, hy, hyb⟩ := honto b hb
-            rw [← hxa, ← hyb, hspec.2 x hx, hspec.2 y hy] at hab
-            rw [← hxa, ← hyb]
-            exact aggregate_pconn _ lv hlv hrlen x y (hw2 x y hx hy hab)
+            intro u v hu hv huv
+            rw [hcomp u hu, hcomp v hv, hspec.2 _ (hmb u hu), hspec.2 _ (hmb v hv)] at huv
+            exact hw2 u v hu hv huv
           exact ih _ (aggregate (uniqueInverse refined) lv)
             (refinedToLabels (uniqueInverse labels1) (uniqueInverse refined)) _ _ _ out
             (aggregate_levelOK _ lv hlv hrlen) hspec.1 hmlen' hmb' hinv' hw' h
 
 /-- **clusters_within_components (Leiden.fit), every oracle.** -/
 theorem leidenFit_comp (kind : Kind) (res tolOpt tolAgg : Rat) (nAgg : Int) (nRow nCol nnz : Nat)
-    (B : Nat → Nat → Rat) (fb : Bool) (coreFuel : Nat) (rands : List (List Nat)) (out : FitOut)
-    (h : leidenFit kind res tolOpt tolAgg nAgg nRow nCol nnz B fb coreFuel rands = .ok (some out)) :
+    (B : Nat → Nat → Rat) (fb : Bool) (outerFuel : Nat) (rands : List (List Nat)) (out : FitOut)
+    (h : leidenFit kind res tolOpt tolAgg nAgg nRow nCol nnz B fb outerFuel rands = .ok (some out)) :
     ∀ u v, u < (kindAdj kind nRow nCol B fb).1 → v < (kindAdj kind nRow nCol B fb).1 →
       labOf out.labels u = labOf out.labels v →
       Connected (kindAdj kind nRow nCol B fb).1 (kindAdj kind nRow nCol B fb).2 u v := by
@@ -227,13 +145,23 @@ theorem leidenFit_comp (kind : Kind) (res tolOpt tolAgg : Rat) (nAgg : Int) (nRo
     simp only [Except.ok.injEq] at h
     obtain ⟨w, hw, rfl⟩ := preProcess_ok _ _ _ _ _ _ _ hlv
     have hOK := symLevel_levelOK (kindAdj kind nRow nCol B fb).1 (kindAdj kind nRow nCol B fb).2 w.1 w.2
-    have hwc := leidenLoop_comp res tolOpt tolAgg nAgg coreFuel _ _ 0 _
+    have hwc := leidenLoop_comp res tolOpt tolAgg nAgg _ _ 0 _
       (arange (kindAdj kind nRow nCol B fb).1) (arange (kindAdj kind nRow nCol B fb).1) [] rands out hOK
       (by simp [arange, symLevel]) (by simp [arange, symLevel])
       (fun u hu => by
         show labOf (List.range (kindAdj kind nRow nCol B fb).1) u < (kindAdj kind nRow nCol B fb).1
         rw [labOf_range (kindAdj kind nRow nCol B fb).1 u hu]; exact hu)
-      (compInv_init _ hOK) (withinComp_singletons _) h
+      (compInv_init _ hOK)
+      (fun u v hu hv huv => by
+        have hu' : u < (kindAdj kind nRow nCol B fb).1 := hu
+        have hv' : v < (kindAdj kind nRow nCol B fb).1 := hv
+        have e : ∀ x, x < (kindAdj kind nRow nCol B fb).1 →
+            labOf (arange (kindAdj kind nRow nCol B fb).1) (labOf (arange (kindAdj kind nRow nCol B fb).1) x) = x := by
+          intro x hx
+          show labOf (List.range _) (labOf (List.range _) x) = x
+          rw [labOf_range _ _ hx, labOf_range _ _ hx]
+        rw [e u hu', e v hv'] at huv
+        rw [huv]; exact PConn.refl _) h
     intro u v hu hv huv
     exact symLevel_conn _ _ _ _ u v hu (hwc u v hu hv huv)
 
